@@ -195,7 +195,8 @@ def cases(tier):
         yield {"labels": [f"k1={kname(k1)}", f"k2={kname(k2)}", "form=ref+inline", "req=00", "name=itemCount", "sibling=item_count"],
                "payload": {"mode": "pair", "k1": k1, "k2": k2, "form": "ref+inline", "req": [False, False], "default": "none", "pname": "itemCount",
                            "collide": "item_count"}}
-    for shape in ("chain3", "diamond", "disjoint3", "selfref-chain", "single-ref+own-properties", "single-ref+required-only", "single-ref+closed", "single-ref+member-requires-inherited"):
+    for shape in ("chain3", "diamond", "disjoint3", "selfref-chain", "single-ref+own-properties", "single-ref+required-only", "single-ref+closed", "single-ref+member-requires-inherited",
+                  "empty-parent:type-only", "empty-parent:addl-only", "empty-parent:empty-properties", "empty-parent:middle-of-chain"):
         names = {"chain3": ["Base", "Mid", "M"], "diamond": ["Base", "Left", "Right", "M"], "disjoint3": ["P1", "P2", "P3", "M"],
                  "selfref-chain": ["Base", "Mid", "M"]}.get(shape, ["Base", "M", "User"])
         for order in itertools.permutations(names):
@@ -374,6 +375,21 @@ def _shape(p):
                  "M": {"allOf": [ref("Left"), ref("Right")]}}
         expect = {"id": ("int", True), "v": ("int", False), "l": ("str", False), "r": ("str", True)}
         inst = {"id": 1, "v": 3, "l": "a", "r": "b"}
+    elif shape.startswith("empty-parent:"):
+        # a referenced member that declares NO properties of its own is still a processed member
+        empty = {"type-only": {"type": "object"}, "addl-only": {"type": "object", "additionalProperties": {"type": "string"}},
+                 "empty-properties": {"type": "object", "properties": {}}, "middle-of-chain": {"type": "object"}}[shape.split(":")[1]]
+        if shape.endswith("middle-of-chain"):
+            comps = {"Base": {"type": "object", "required": ["id"], "properties": {"id": {"type": "integer"}}},
+                     "User": {"allOf": [ref("Base")]},            # adds nothing (alias), then extended
+                     "M": {"allOf": [ref("User"), dict(empty), {"type": "object", "properties": {"own": {"type": "boolean"}}}]}}
+            expect = {"id": ("int", True), "own": ("bool", False)}
+            inst = {"id": 1, "own": True}
+        else:
+            comps = {"Base": empty, "M": {"allOf": [ref("Base"), {"type": "object", "required": ["own"], "properties": {"own": {"type": "boolean"}}}]},
+                     "User": {"type": "object", "properties": {"m": ref("M")}}}
+            expect = {"own": ("bool", True)}
+            inst = {"own": False}
     elif shape.startswith("single-ref+"):
         # an allOf with ONE reference member whose schema adds something of its own next to the allOf keyword
         base = {"type": "object", "required": ["id"], "properties": {"id": {"type": "integer"}, "label": {"type": "string"}}}
